@@ -148,6 +148,14 @@ def run(ctx):
                 spec.close_reset = 0
                 fault, at = "lose-clean", 0
                 ctx.count("sessions_lost_cleanly_in_a_short_pause")
+            if si % 12 == 9:
+                # the script runs to its end and vncdo closes - but the close never goes through (the peer has stopped reading:
+                # connectionLost is never delivered).  --timeout still has to end the run.
+                spec = build_session(r, kinds=["key", "move", "click", "type"], ncmd=r.randint(1, 3))
+                spec.timeout = r.choice([2.0, 5.0])
+                spec.close_hangs = True
+                fault, at = "none", 0
+                ctx.count("sessions_whose_close_never_completes")
             if si % 12 == 7:
                 # ... deterministically: the last capture is pending, a screen exists, the server closes (cleanly or not)
                 spec = build_session(r, kinds=["capture", "key"], ncmd=r.randint(1, 2))
